@@ -266,6 +266,8 @@ pub struct World {
     last_texts: Vec<String>,
     last_fens: Vec<String>,
     trace: bool,
+    did_tree: bool,
+    used_keys: Vec<u64>,
 }
 
 fn has(list: &[&'static str], k: &str) -> bool {
@@ -341,6 +343,8 @@ impl World {
             last_texts: vec![],
             last_fens: vec![],
             trace: std::env::var("CHESS_DST_TRACE").is_ok(),
+            did_tree: false,
+            used_keys: vec![],
         }
     }
 
@@ -863,6 +867,13 @@ impl World {
                 if rev.is_empty() {
                     return *self.rng.pick(lm);
                 }
+                if self.rng.chance(1, 40) {
+                    // now and then a pawn move (double pushes preferred): starts a new fifty-move window
+                    let pm: Vec<Mv> = lm.iter().cloned().filter(|m| pos.is_double_push(*m)).collect();
+                    if !pm.is_empty() {
+                        return *self.rng.pick(&pm);
+                    }
+                }
                 let keep: Vec<Mv> = rev.iter().cloned().filter(|m| pos.make(*m).castle == pos.castle).collect();
                 let burn: Vec<Mv> = rev.iter().cloned().filter(|m| pos.make(*m).castle != pos.castle).collect();
                 if !burn.is_empty() && (keep.is_empty() || self.rng.chance(1, 25)) {
@@ -1013,6 +1024,36 @@ impl World {
 
     /// Search-like walk: descend into children (in-place make_move into used buffers), null moves, ascend.
     fn engine_search(&mut self, c: usize, task: usize) -> Result<(), End> {
+        if self.prof.prop == 5 && !self.did_tree && self.rng.chance(1, 6) {
+            // complete move tree to depth 2 under the task's current position (C05: "complete move trees to a bounded depth")
+            if let Some(pos) = self.top_pos(c, task) {
+                let l1 = pos.legal_moves();
+                if !l1.is_empty() && l1.len() <= 40 {
+                    self.did_tree = true;
+                    for m1 in l1 {
+                        self.eop(c, task, EOp::Descend { mv: m1, dirty: 2 })?;
+                        let p1 = pos.make(m1);
+                        for m2 in p1.legal_moves() {
+                            self.eop(c, task, EOp::Descend { mv: m2, dirty: 3 })?;
+                            self.eop(c, task, EOp::Ascend)?;
+                        }
+                        self.eop(c, task, EOp::Ascend)?;
+                    }
+                    self.exec.stats.cnt("reach.full_width_depth2_trees");
+                    return Ok(());
+                }
+            }
+        }
+        if self.prof.prop == 5 {
+            if self.rng.chance(1, 2) {
+                let n = self.rng.range(2, 40) as usize;
+                let picks: Vec<u8> = (0..n).map(|_| self.rng.below(256) as u8).collect();
+                self.eop(c, task, EOp::LibWalk { picks })?;
+            }
+            if self.rng.chance(1, 10) {
+                self.eop(c, task, EOp::LibTree)?;
+            }
+        }
         let steps = self.rng.range(2, 10);
         if self.rng.chance(1, 3) {
             self.eop(c, task, EOp::Reset)?;
@@ -1157,6 +1198,23 @@ impl World {
             let bb = self.random_mask(&pos, &lm);
             self.eop(c, task, EOp::SetMask(bb))?;
             self.drain_mask(c, task)?;
+            // between passes a search routine may exclude more moves (killer already tried, bad captures ...)
+            if !lm.is_empty() && self.rng.chance(1, 4) {
+                if self.rng.chance(1, 2) {
+                    let mv = *self.rng.pick(&lm);
+                    self.eop(c, task, EOp::RemoveMove(mv))?;
+                } else {
+                    let bb = match self.rng.below(3) {
+                        0 => 1u64 << self.rng.pick(&lm).to,
+                        1 => self.rng.next_u64() & self.rng.next_u64(),
+                        _ => self.random_mask(&pos, &lm),
+                    };
+                    self.eop(c, task, EOp::RemoveMask(bb))?;
+                }
+                if self.rng.chance(1, 2) {
+                    self.eop(c, task, EOp::Len)?;
+                }
+            }
         }
         if self.rng.chance(4, 5) {
             if nmasks > 0 {
@@ -1205,15 +1263,34 @@ impl World {
                 5 => self.rng.next_u64(),
                 _ => (self.rng.below(4) % size.max(1)) + size.wrapping_mul(self.rng.next_u64() >> 20),
             };
+            // keys that agree with an earlier key in the low 16 / 32 / 48 / 56 / 63 bits and differ above
+            let alias_key = if !self.used_keys.is_empty() && self.rng.chance(1, 3) {
+                let base = *self.rng.pick(&self.used_keys);
+                let sh = *self.rng.pick(&[16u32, 32, 32, 48, 56, 63]);
+                let hi = (self.rng.next_u64() | 1) << sh;
+                base ^ hi
+            } else if self.rng.chance(1, 12) {
+                // low bits all zero: an untouched slot holds (hash 0, default) and must not answer for these
+                1u64 << *self.rng.pick(&[16u32, 32, 40, 48, 63])
+            } else {
+                alias_key
+            };
+            if self.used_keys.len() < 64 {
+                self.used_keys.push(alias_key);
+            } else {
+                let i = self.rng.usize(64);
+                self.used_keys[i] = alias_key;
+            }
             let here_alias = if self.rng.chance(1, 2) { 0 } else { (self.rng.next_u64() >> 8) << self.cfg.table_log2.max(1) };
+            let val = *self.rng.pick(&[0u8, 0, 0, 0, 1, 1, 2]);
             match self.rng.below(8) {
                 0 | 1 => self.eop(c, task, EOp::TableGetHere { alias: here_alias })?,
                 2 => self.eop(c, task, EOp::TableAddHere { alias: here_alias })?,
                 3 | 4 => self.eop(c, task, EOp::TableGet { key: alias_key })?,
-                5 => self.eop(c, task, EOp::TableAdd { key: alias_key })?,
+                5 => self.eop(c, task, EOp::TableAdd { key: alias_key, val })?,
                 _ => {
                     let pred = self.rng.below(5) as u8;
-                    self.eop(c, task, EOp::TableReplaceIf { key: alias_key, pred })?
+                    self.eop(c, task, EOp::TableReplaceIf { key: alias_key, pred, val })?
                 }
             }
         }
